@@ -1367,6 +1367,24 @@ def float_boundary_spec(rng):
     return {"family": "X", "nocoq": True, "vars": vs, "cons": cons}
 
 
+def observation_class(spec):
+    """POLICY_X: inputs outside every property - judged observation-only (counted; never a violation or a known finding)"""
+    def walk(x):
+        if isinstance(x, float):
+            return x != x or x in (float("inf"), float("-inf")) or abs(x) >= 1e300
+        if isinstance(x, (list, tuple)):
+            return any(walk(y) for y in x)
+        return False
+    if walk(spec["cons"]) or walk(spec["vars"]):
+        return "nan-inf-or-overflowing-float"
+    for c in spec["cons"]:
+        if c[0] == "cumulative" and any(isinstance(d, float) for d in list(c[2]) + list(c[3])):
+            return "float-durations-or-demands"
+        if c[0] == "no_overlap" and any(isinstance(d, float) for d in c[2]):
+            return "float-durations-or-demands"
+    return None
+
+
 def has_nan(spec):
     def walk(x):
         if isinstance(x, float):
